@@ -6,7 +6,9 @@ toolchain go1.24.1
 
 require (
 	github.com/go-jose/go-jose/v4 v4.0.5
+	github.com/rs/cors v1.11.1
 	github.com/zitadel/oidc/v3 v3.0.0
+	golang.org/x/oauth2 v0.29.0
 )
 
 require (
@@ -18,7 +20,6 @@ require (
 	github.com/gorilla/securecookie v1.1.2 // indirect
 	github.com/muhlemmer/gu v0.3.1 // indirect
 	github.com/muhlemmer/httpforwarded v0.1.0 // indirect
-	github.com/rs/cors v1.11.1 // indirect
 	github.com/sirupsen/logrus v1.9.3 // indirect
 	github.com/zitadel/logging v0.6.2 // indirect
 	github.com/zitadel/schema v1.3.1 // indirect
@@ -26,7 +27,6 @@ require (
 	go.opentelemetry.io/otel/metric v1.29.0 // indirect
 	go.opentelemetry.io/otel/trace v1.29.0 // indirect
 	golang.org/x/crypto v0.35.0 // indirect
-	golang.org/x/oauth2 v0.29.0 // indirect
 	golang.org/x/sys v0.30.0 // indirect
 	golang.org/x/text v0.24.0 // indirect
 )
